@@ -29,22 +29,24 @@ class Plugin:
 
 
 def build_program(defs, plugin, rng, cap_vals):
-    parts = [gen.PRELUDE]
+    parts = [gen.PRELUDE + getattr(plugin, "prelude_extra", "")]
     mains = []
     line_map = []   # (first line, last line, def id)
-    cur = gen.PRELUDE.count("\n") + 1
+    cur = parts[0].count("\n") + 1
     vals_by_def = {}
     for td in defs:
-        vals = gen.value_tuples(rng, td, cap_vals)
+        vals = [] if getattr(plugin, "no_values", False) else gen.value_tuples(rng, td, cap_vals)
         vals_by_def[td.id] = vals
         body = plugin.observe(td, vals)
-        src = "mod d%d {\n use super::prelude::*;\n%s\n pub fn run() {\n%s\n }\n}\n" % (td.id, td.render(), body)
+        src = "mod d%d {\n use super::prelude::*; %s\n%s\n pub fn run() {\n%s\n }\n}\n" % (
+            td.id, getattr(plugin, "mod_uses", ""), td.render(), body)
         n = src.count("\n")
         line_map.append((cur, cur + n, td.id))
         cur += n
         parts.append(src)
         mains.append("    d%d::run();" % td.id)
-    parts.append("fn main() {\n%s\n%s\n}\n" % (gen.leaf_table_code(), "\n".join(mains)))
+    extra_tables = plugin.tables() if hasattr(plugin, "tables") else ""
+    parts.append("fn main() {\n%s\n%s\n%s\n}\n" % (gen.leaf_table_code(), extra_tables, "\n".join(mains)))
     return "".join(parts), line_map, vals_by_def
 
 
@@ -120,19 +122,23 @@ def run_b1(prop_id, plugin, n_defs, cap_vals, seed, corpus=None):
 
     distinct = {}
     bad_spec, bad_model, bad_thm = [], [], []
+    if hasattr(plugin, "prepare"):
+        plugin.prepare(tables)
+    agree = getattr(plugin, "agree", lambda a, b: a == b)
     for o, r in zip(obs, drv_res):
         impl, model, spec = plugin.canon(o[-1]), r[-2], r[-1]
         tie["evaluations"] += 1
         distinct.setdefault(o[1], set()).add(json.dumps(impl))
-        if impl != spec:
+        if not agree(impl, spec):
             bad_spec.append((o, model, spec))
-        elif impl != model:
+        elif not agree(impl, model):
             bad_model.append((o, model, spec))
         if model != spec:
             bad_thm.append((o, model, spec))
     # distinct non-trivial: definitions that are non-trivial for the property AND on which at least
     # two different results were observed
-    tie["distinct_nontrivial"] = sum(1 for td in defs if plugin.nontrivial(td) and len(distinct.get(td.id, ())) >= 2)
+    need = getattr(plugin, "min_distinct", 2)
+    tie["distinct_nontrivial"] = sum(1 for td in defs if plugin.nontrivial(td) and len(distinct.get(td.id, ())) >= need)
     tie["rule"] = plugin.rule
     for td in defs[:3]:
         ex = [o for o in obs if o[1] == td.id][:2]
